@@ -28,12 +28,19 @@ def run (kv : List (String × String)) : IO Res := do
   if cfg.principal.isSome then tags := "cfg.skip" :: tags
   -- every request must behave like the fresh writer's: same outcome class …
   for r in results do
+    if r.startsWith "disturbed-" then
+      tags := "disturbed" :: tags
+      continue
     if r != fres then return .propfail s!"a reused writer returned {r}, a fresh writer {fres}" tags
   if fres != "ok" then return .ok ("fresh.err" :: tags)
   let some fimg ← loadImg fpath | return .bad "fresh image"
   let some fcan := canonical fimg | return .propfail "fresh image does not decode" tags
   let mut j := 0
   for p in imgs do
+    if p == "-" then
+      j := j + 1
+      continue
+    if j > 0 && ((results.take j).getLast?.getD "").startsWith "disturbed-" then tags := "after.failed" :: tags
     let some img ← loadImg p | return .bad s!"image {j}"
     let some can := canonical img | return .propfail s!"dump #{j} of the reused writer does not decode" tags
     if can != fcan then
